@@ -68,10 +68,16 @@ def check_one_iterator(ctx, prog, R):
             if m == "next" and w in ("DbXxxKeys", "DbXxxValues"):
                 cl = prog.closures_of(f)
                 want = "f:0" if w == "DbXxxKeys" else "f:1"
-                good = len(cl) == 1
-                if good:
-                    o = tracer(prog, cl[0]).place({"l": 0, "p": []})
-                    good = bool(o) and all(x.kind == "param" and x.data == 2 and x.proj == (want,) for x in o)
+                if cl:
+                    good = len(cl) == 1
+                    if good:
+                        o = tracer(prog, cl[0]).place({"l": 0, "p": []})
+                        good = bool(o) and all(x.kind == "param" and x.data == 2 and x.proj == (want,) for x in o)
+                else:
+                    # the projecting closure has been desugared into the body: the Some payload returned is that
+                    # component of the core iterator's item
+                    o = tracer(prog, f).place({"l": 0, "p": ["dc:Some", "f:core::option::Option::Some.0"]})
+                    good = bool(o) and all(is_call_to(prog, f, x, tgt) and x.proj and x.proj[-1] == want for x in o)
                 ctx.check(good, "one-iterator", "%s::next:projection" % w, "%s does not project component %s of the core iterator's item" % (w, want[-1]), where=where(f))
             if m == "next" and w in ("DbXxxIter", "DbXxxIntoIter"):
                 o = tracer(prog, f).place({"l": 0, "p": []})
